@@ -1,4 +1,5 @@
 """developer helper: run the units of some groups and print every obligation"""
+import os
 import sys
 import time
 
@@ -9,6 +10,10 @@ from pyvc.modules import Loader
 
 
 def main(argv):
+    import faulthandler
+    import os
+    if os.environ.get("PYVC_DUMP"):
+        faulthandler.dump_traceback_later(int(os.environ["PYVC_DUMP"]), repeat=True)
     groups = argv or None
     reg = R.build()
     loader = R.make_loader()
@@ -22,7 +27,7 @@ def main(argv):
                 print("-- %s: callee-only contract, justified by %s" % (q, reg.contracts[q].justified_by))
                 continue
             t0 = time.time()
-            res = reg.lemmas[q].run(loader, reg) if q in reg.lemmas else verify_unit(loader, reg.contracts[q], reg)
+            res = reg.lemmas[q].run(loader, reg) if q in reg.lemmas else verify_unit(loader, reg.contracts[q], reg, timeout_ms=int(os.environ.get('PYVC_TIMEOUT_MS', '20000')))
             agg = res.clause_status()
             n_ok = sum(1 for v in agg.values() if v == "proved")
             print("== %s  paths=%d outcomes=%d infeasible=%d backedges=%d  clauses %d/%d  %.1fs (solver %.1fs)%s%s"
